@@ -98,7 +98,14 @@ def _job(batch):
                 n += 1
                 obs = (r[0], r[1], norm_err(r[2], names))
                 if obs != base:
-                    out.append((label, name, base, obs, data, args))
+                    # replay before report: the same perturbed run once more; a difference that does not come back (a run killed from
+                    # outside under memory pressure, for instance) is counted, not reported
+                    r2 = fn()
+                    obs2 = (r2[0], r2[1], norm_err(r2[2], names))
+                    if obs2 == base:
+                        hist[('transient-difference-not-reproduced', name)] = hist.get(('transient-difference-not-reproduced', name), 0) + 1
+                        continue
+                    out.append((label, name, base, obs2, data, args))
     finally:
         shutil.rmtree(work, ignore_errors=True)
     return n, out, hist
@@ -161,6 +168,20 @@ def inputs(chk):
     items = []
     for label, data in typegrid(chk.quick):
         items.append((label, data, 'x86_64-sysv', False))
+    # the preprocessor builds strings and token arrays of its own: the stringification and variadic families of C12, printed by -E
+    # and (wrapped as an initialiser) compiled, so that bytes behind an unterminated or short-filled buffer reach the output
+    from . import c12
+    pps = list(c12.m3_stringify(False)) + list(c12.m3_stringify_and_plain())
+    pps = pps[::3] if chk.quick else pps
+    for k, src in enumerate(pps):
+        items.append(('pp-stringify/%d' % k, src.encode('latin-1'), 'x86_64-sysv', True))
+    for k, src in enumerate(pps[::4]):
+        lines = src.split('\n')
+        body = [l for l in lines if l and not l.startswith('#')]
+        if len(body) == 1 or True:
+            defs = '\n'.join(l for l in lines if l.startswith('#'))
+            wrapped = defs + '\n#define XS(x) #x\n#define XXS(x) XS(x)\nchar pps%d[] = XXS(%s);\n' % (k, '\n'.join(body))
+            items.append(('pp-stringify-twice/%d' % k, wrapped.encode('latin-1'), 'x86_64-sysv', False))
     for name, src, targ, pp in files:
         items.append((name, src, targ, pp))
         if not pp:
